@@ -293,8 +293,16 @@ func (f *Frame) run(st *State) (*State, []Val) {
 					if ev.LV != nil && acc.LV != nil && ev.LV == acc.LV {
 						nv.LV = ev.LV
 					}
-					if ev.Fn != nil && acc.Fn == ev.Fn {
+					if ev.Fn != nil && acc.Fn == ev.Fn && len(acc.Alts) == 0 {
 						nv.Fn, nv.Env = ev.Fn, ev.Env
+					} else if len(ev.fnAlts()) > 0 && len(acc.fnAlts()) > 0 {
+						// function-valued phi: keep every alternative under its edge condition
+						for _, a := range ev.fnAlts() {
+							nv.Alts = append(nv.Alts, FnAlt{Cond: And(e.st.pc, a.Cond), Fn: a.Fn, Env: a.Env})
+						}
+						for _, a := range acc.fnAlts() {
+							nv.Alts = append(nv.Alts, FnAlt{Cond: And(Not(e.st.pc), a.Cond), Fn: a.Fn, Env: a.Env})
+						}
 					}
 					acc = nv
 				}
